@@ -174,7 +174,8 @@ def _init_worker_noint():
     quiet_amoco()
 
 
-class TimeLimit(Exception):
+class TimeLimit(BaseException):
+    """not an Exception: the generic handlers of the checks (and of the code under test) must not take it for a failure"""
     pass
 
 
